@@ -35,6 +35,8 @@ OPS = [
     "RS 0 %s" % hx("m=zz"), "RN 0 %s 0" % hx("one"), "RN 0 %s 0" % hx("i"), "RT 0 %s %s" % (hx("n"), hx("a")),
     "SI 0 %s 0 4" % hx("m=a|x"), "AL 0 %s 6" % hx("m=a|xl"), "SI 0 %s 0 2" % hx("one|w"), "AL 0 %s %s" % (hx("one|wl"), hx("c")),
     "SC 0 %s %s" % (hx("l"), hx("note")),
+    # a plain (single) section removed, and mentioned again by a parse: the new instance starts from the declared defaults
+    "RS 0 %s" % hx("one"), "PB 0 %s" % hx(b"one { }\n"), "PB 0 %s" % hx(b"one { wl += {z} }\n"),
 ]
 PARSED = b"i = 3\nl += {4}\nm a { x = 1 }\nm b { }\nu a { y = q }\nn { z = 1 }\nn { z = 2 }\none { w = 5 }\n"
 
